@@ -12,6 +12,46 @@ WITNESSES = [("sort", "[sort | .[] | path]", "[3,1,2]", "[[1],[2],[0]]"), ("sort
              ("unique", "[unique | .[] | path]", "[1,1,2]", "[[0],[2]]"), ("flatten", "[flatten | .[] | path]", "[[1],[2]]", "[[0],[0]]")]
 
 
+NUMKEYS = ["0", "1", "2", "-1", "007", "1e3", "0x10", "1.5", "true", "null", "~"]
+
+
+def numkeys(d, rng):
+    """rename some map keys to strings that look like numbers / other types"""
+    if isinstance(d, dict):
+        out = {}
+        for k, v in d.items():
+            nk = rng.choice(NUMKEYS) if rng.random() < 0.5 else k
+            if nk in out:
+                nk = k
+            out[nk] = numkeys(v, rng)
+        return out
+    if isinstance(d, list):
+        return [numkeys(x, rng) for x in d]
+    return d
+
+
+def gen_alias_yaml(rng):
+    """a small YAML document (flow style) with anchors on maps / sequences / scalars and aliases as map values,
+    sequence elements and merge keys"""
+    sc = lambda: rng.choice(["1", "2", "x", "true", "null", "\"s t\""])
+    def seq(n=None):
+        return "[" + ", ".join(sc() for _ in range(n if n is not None else rng.randrange(1, 4))) + "]"
+    def mp():
+        ks = rng.sample(["p", "q", "r", "s"], rng.randrange(1, 4))
+        return "{" + ", ".join("%s: %s" % (k, rng.choice([sc(), seq(), "{r: 1}"])) for k in ks) + "}"
+    lines = ["a: &x {p: %s, q: {r: %s}%s}" % (seq(2), sc(), rng.choice(["", ", s: 5"]))]
+    lines.append("y: &y " + rng.choice([seq(), sc(), mp()]))
+    ymap = lines[-1].startswith("y: &y {")
+    lines.append("b: " + rng.choice(["*x", "*y", "{k: *x}"]))
+    lines.append("c: [" + ", ".join(rng.choice(["*x", "*x", "*y", sc(), mp()]) for _ in range(rng.randrange(1, 4))) + "]")
+    if rng.random() < 0.7:
+        merges = rng.choice(["*x", "[*x]", "[*x, *y]" if ymap else "[*x]"])
+        lines.append("d: {<<: %s, z: %s}" % (merges, rng.choice(["*y", sc()])))
+    if rng.random() < 0.4:
+        lines.append("e: [{<<: *x, p: 3}, *y]")
+    return "\n".join(lines) + "\n"
+
+
 def compound_add(e):
     if isinstance(e, tuple):
         if len(e) > 1 and e[0] == "compound" and e[1] == "add":
@@ -29,6 +69,8 @@ def run(chk):
     g = evalgen.Gen(chk.rng)
     n = 8000 if thorough else 600
     docs = [evalgen.gen_doc(chk.rng, maxdepth=4) for _ in range(n)]
+    # string keys that look like numbers stay strings in path / key / parent
+    docs = [numkeys(d, chk.rng) if chk.rng.random() < 0.3 else d for d in docs]
     # ---- fresh documents: `.. | path` enumerates exactly the positions; key is the last element; parent holds the node
     q_paths = ("collect", ("pipe", ("recurse",), ("path",)))
     q_keys = ("collect", ("pipe", ("recurse",), ("key",)))
@@ -168,6 +210,41 @@ def run(chk):
             chk.known_finding("stale-key-" + op, "%s on %s -> %s" % (e, d, bad))
     for op, (expr, d, got, want) in sorted(stale.items()):
         chk.known_finding("stale-key-" + op, "%s on %s -> %s, expected %s" % (expr, json.dumps(d), got.decode("utf-8", "replace").strip()[:120], want.decode("utf-8", "replace").strip()[:120]))
+    # ---- YAML documents with anchors, aliases and merge keys: after explode (and after a further update) every node
+    # reports the position it has in the resulting value (decoded afresh from its JSON text)
+    ycases = []
+    for _ in range(600 if thorough else 60):
+        y = gen_alias_yaml(chk.rng)
+        for f in ("explode(.)", "explode(.) | .a.p[0] = 99", "explode(.) | del(.a)", "explode(.) | .c[0].q.r = \"changed\""):
+            ycases.append((y, f))
+    yreq = []
+    for y, f in ycases:
+        yreq.append({"op": "eval", "expr": f, "input": y, "in": "yaml", "out": "json", "indent": 0})
+        for q in ("[.. | path]", "[.. | key]", "[.. | parent | path]"):
+            yreq.append({"op": "eval", "expr": f + " | " + q, "input": y, "in": "yaml", "out": "json", "indent": 0})
+    yresp = vlib.yqh_parallel(yreq)
+    ny = 0
+    for k, (y, f) in enumerate(ycases):
+        r = yresp[4 * k:4 * k + 4]
+        if any((not x) or x.get("err") or x.get("panic") or "out_b64" not in x for x in r):
+            chk.count(("yaml", f, y), nontrivial=False)
+            continue
+        try:
+            after = json.loads(vlib.b64d(r[0]["out_b64"]))
+            got = [json.loads(vlib.b64d(x["out_b64"])) for x in r[1:]]
+        except Exception:
+            chk.count(("yaml", f, y), nontrivial=False)
+            continue
+        ps = evalgen.doc_paths(after)
+        # the root has no key and no parent: `key` and `parent` yield nothing for it
+        want = [[list(p) for p in ps], [p[-1] for p in ps if p], [list(p[:-1]) for p in ps if p]]
+        ny += 1
+        chk.count(("yaml", f, y), nontrivial=True)
+        for name, g_, w_ in (("path", got[0], want[0]), ("key", got[1], want[1]), ("parent", got[2], want[2])):
+            if g_ != w_ and len(chk.violations) < 6:
+                chk.violation({"kind": "yamlpath", "expr": f, "query": name, "yaml": y, "impl": json.dumps(g_), "expect": json.dumps(w_)}, True,
+                              "after %s the nodes do not report where they are (%s)" % (f, name))
+    chk.extra["yaml_alias_documents_judged"] = ny
     chk.extra["histories_not_judged(outside model fragment, rebuilt container involved)"] = undecided
     chk.extra["distribution"] = {"fresh_docs": len(docs), "derived": len(derived), "retraversals": len(rt), "impl_outcomes": evalcheck.outcome_stats(impl),
                                  "outside_model_fragment(UNSUP)": unsup, "stale_key_classes_seen": sorted(stale)}
@@ -182,5 +259,15 @@ def run(chk):
         assumptions=["JSON-model documents with unique keys, stream mode", "key nodes (`...`, keys | .[] | path) are outside the model"])
 
 
+def replay_yaml(rp):
+    q = {"path": "[.. | path]", "key": "[.. | key]", "parent": "[.. | parent | path]"}[rp["query"]]
+    r = vlib.yqh_batch([{"op": "eval", "expr": rp["expr"] + " | " + q, "input": rp["yaml"], "in": "yaml", "out": "json", "indent": 0}])[0]
+    if not r or r.get("err") or "out_b64" not in r:
+        return True
+    return json.loads(vlib.b64d(r["out_b64"])) == json.loads(rp["expect"])
+
+
 def replay(rp):
+    if rp.get("kind") == "yamlpath":
+        return replay_yaml(rp)
     return evalcheck.replay_eval(rp)
